@@ -27,6 +27,11 @@ def applicable_faults(prog, kinds=None, extra=()):
                 out.append({'kind': 'unencodable_arg', 'at': idx})
             if d.get('handler') == 'wrap':
                 out.append({'kind': 'hfail', 'at': idx})
+            if d.get('resolver'):
+                # the key cannot be built because alias resolution itself fails: the resolver raises / its mapping
+                # lacks the placeholder of the alias template
+                out.append({'kind': 'resolver_raises', 'at': idx})
+                out.append({'kind': 'resolver_no_placeholder', 'at': idx})
             out.append({'kind': 'unserialisable_ret', 'at': idx})
         if s['t'] == 'out':
             d = prog['outs'][s['i']]
@@ -81,6 +86,8 @@ def apply_faults(prog, faults):
             s['a'] = UNENC
         elif k == 'hfail':
             s['hfail'] = True
+        elif k in ('resolver_raises', 'resolver_no_placeholder'):
+            s['resolver_fault'] = k
         elif k == 'unserialisable_ret':
             s['ret'] = UNENC
         elif k == 'unserialisable_out_arg':
@@ -130,6 +137,8 @@ def compatible(f1, f2):
             return False
         if {a, b} == {'unencodable_arg', 'unserialisable_out_arg'}:
             return False
+        if a.startswith('resolver_') and b.startswith('resolver_'):
+            return False
         if 'vector_arg' in (a, b) and (a.startswith('un') or b.startswith('un')) and 'ret' not in a + b:
             return False
         if 'vector_ret' in (a, b) and 'unserialisable_ret' in (a, b):
@@ -166,6 +175,8 @@ def model_effects(prog):
                 d = prog['ins'][s['i']]
                 if d['kind'] != 'property' and d.get('capture', 'all') in ('all', 'pos1', 'pos1_name_b'):
                     capture_failed = True
+            if t == 'in' and s.get('resolver_fault') and prog['ins'][s['i']].get('resolver'):
+                capture_failed = True
             if s.get('hfail') and (t == 'out' or s['beh'] in ('ret', 'nested', 'force', 'discard_then_op')):
                 # an input handler only runs when the wrapped body returned; an output handler runs before the body
                 capture_failed = True
